@@ -21,7 +21,8 @@ import random
 
 from ..core import Ctx, MachineryError, digest
 from ..forkpool import prepare_imports, run_cases
-from ..lattice import ALL, EMBEDDINGS, OffLattice
+from ..lattice import ALL as _ALL8, EMBEDDINGS, OffLattice
+ALL = list(_ALL8) + ["mega"]        # + step 1234567.8: large inexact coordinates through strop_decomposition and Netlist
 from .. import tlc
 
 ROLE = {"TRUNK": "T", "NORTH": "N", "SOUTH": "S", "EAST": "E", "WEST": "W", "NO_POLYGON": "X"}
@@ -408,7 +409,7 @@ def run(ctx: Ctx) -> int:
         "grids are enumerated exhaustively up to the cfg bound (quick: <= 12 cells with sides <= 4; thorough: <= 16 cells with sides <= 5), randomly up to 8x8",
         "vertex lists: the outline of every enumerated grid of at most 12 cells that is one simple polygon and fills its bounding box, "
         "both orientations, two start vertices, Point list and numpy rows (quick: alternating, thorough: both for every outline), "
-        "uniform or 1..3-step line spacing, 8 float embeddings; every second drawing also as a comb under the decimal embedding (one axis in 0.1 / 0.2 / "
+        "uniform or 1..3-step line spacing, 9 float embeddings (lattice.py's eight + mega); every second drawing also as a comb under the decimal embedding (one axis in 0.1 / 0.2 / "
         "0.8 steps from 16.0, the other in exactly representable 1 / 2 / 8 steps with one step of 128, 256, 16384 or 131072)",
         "for grids of more than 12 cells the oracle of 'a decomposition exists' is the shadow characterisation, proved equal to the declarative definition by TLC on all grids of at most 12 cells",
         "a refusal of strop_decomposition (its assertion 'Polygon is not a STROP') is read as 'no decomposition reported'",
